@@ -1126,6 +1126,7 @@ class Facts:
         self.statics = self.j["statics"]
         self.unsafe_blocks = self.j["unsafe_blocks"]
         self._cg = None
+        self._cb_impls = None
         self._dyn_targets = None
 
     # -- lookup
@@ -1188,6 +1189,7 @@ class Facts:
                 out.add(t["callee"])
             else:
                 out |= self.blanket_targets(t)
+                out |= self.callback_targets(t)
             # closures passed as arguments to external higher-order functions are invoked there
             # (handled by closure_args below).
         # closures created in this function and handed to anything are considered callable here
@@ -1211,6 +1213,22 @@ class Facts:
             if want is None or norm_ty(got) == norm_ty(want):
                 out.add(c["key"])
         return out
+
+    _CALLBACK_TRAITS = ("std::cmp::PartialEq", "std::cmp::PartialOrd", "std::cmp::Ord", "std::hash::Hash", "std::clone::Clone", "std::default::Default")
+
+    def callback_targets(self, t):
+        """Hand-written comparison / hashing / cloning impls of the crate that a generic function of std may call back:
+        `v.sort()`, `set.insert(x)`, `map.get(k)`, `v.contains(x)`, `v.clone()` on a container run `<T as Ord>::cmp`,
+        `<K as Hash>::hash`, `<T as PartialEq>::eq`, `<T as Clone>::clone` of the element type inside std.  Type-based
+        over-approximation: every such impl whose Self type occurs in the type arguments of the call."""
+        if self._cb_impls is None:
+            self._cb_impls = [(re.compile(r"(?<![\w:])" + re.escape(norm_ty(f.j["impl"]["self"])) + r"(?![\w:])"), f.key) for f in self.fns.values()
+                              if f.j.get("impl") and f.j["impl"].get("trait") in self._CALLBACK_TRAITS and not f.j.get("exp") and f.kind != "Closure"]
+        targs = t.get("callee_targs") or []
+        if not targs or not self._cb_impls:
+            return set()
+        txt = " ".join(norm_ty(x) for x in targs)
+        return {k for rx, k in self._cb_impls if rx.search(txt)}
 
     def blanket_targets(self, t):
         """Local impl fns reached through std blanket impls: `x.into()` -> From::from,
